@@ -1,8 +1,1 @@
 //! Glue between the erased crate and the environment model (compiled unconditionally; adds no behaviour of its own).
-/// R2: an `Interrupted` I/O error is how the model transport tells a `select!` loser that it was cancelled
-/// at a frame boundary; no real code path of passage produces this kind.
-impl tokio::CancelProbe for crate::Error {
-    fn is_cancel(&self) -> bool {
-        matches!(self, crate::Error::InternalIo(e) if e.kind() == std::io::ErrorKind::Interrupted)
-    }
-}
